@@ -78,11 +78,15 @@ def generate(rng, tier):
         view["origin_unit"] = m["unit"]
         if rng.random() < 0.7:
             view["dx"], view["dy"] = None, None
-    return {"mesh": m, "view": view, "direction": direction, "layers": gen_layers(rng, m["ndim"]),
+    case = {"mesh": m, "view": view, "direction": direction, "layers": gen_layers(rng, m["ndim"]),
             "call_mode": rng.choice([None, None, "image"]), "sched": draw_schedule_config(rng, maxT=8),
-            "knob": rng.choice([None, None, None, 1024, 16384]), "render": rng.random() < 0.012,
+            "knob": rng.choice([None, None, None, 1024, 16384]), "render": rng.choice([True, "log"]) if rng.random() < 0.03 else False,
             # an earlier (unjudged) map of another window made with the same Layer and direction objects
             "prior": rng.random() < 0.12, "later": rng.random() < 0.12}
+    if case["render"] == "log":
+        # a layer with zero and negative values under the logarithmic colour scale
+        case["layers"][0] = {"key": "flag", "mode": rng.choice([None, "image"])}
+    return case
 
 
 def describe(case):
@@ -308,12 +312,25 @@ def render_clause(case, dg, p1, V, stats):
     import matplotlib.pyplot as plt
     from matplotlib.collections import QuadMesh
 
+    extra = {"plot": True}
+    if case.get("render") == "log":
+        extra["norm"] = "log"  # a logarithmic colour scale, also over data with zero or negative values
+        stats.inc("probe.rendered_with_log_norm")
     try:
-        plot, calls, kw = call_map(case, dg, lambda: Sim(T=1), extra={"plot": True})
+        with warnings.catch_warnings():
+            warnings.simplefilter("ignore")
+            plot, calls, kw = call_map(case, dg, lambda: Sim(T=1), extra=extra)
     except Exception as e:
         stats.inc("ambig.rendering_failed_in_matplotlib")
         plt.close("all")
         return
+    # what the drawn call returns is the same map as the undrawn one: same pixels masked, same values
+    for k, (la, lb) in enumerate(zip(plot.layers, p1.layers)):
+        ma, mb = np.ma.getmaskarray(la["data"]), np.ma.getmaskarray(lb["data"])
+        if ma.shape != mb.shape or not np.array_equal(ma, mb) or not np.array_equal(np.ma.getdata(la["data"])[~ma], np.ma.getdata(lb["data"])[~mb]):
+            V("render", "returned-data-differs-when-drawn", {"layer": k, "norm": extra.get("norm"), "masked_drawn": int(ma.sum()), "masked_undrawn": int(mb.sum())})
+            plt.close("all")
+            return
     try:
         stats.inc("probe.rendered_with_matplotlib")
         meshes = [c for c in plot.ax.collections if isinstance(c, QuadMesh)]
